@@ -4,6 +4,7 @@ CONSTANTS
   ValidateIndices = TRUE
   GuardCombine = TRUE
   GuardControl = FALSE
+  NoSigpipe = TRUE
   MaxHist = 4
 INVARIANTS C35_NoThrow
 VIEW View
